@@ -12,7 +12,8 @@ LEAN_MODULES = ["NiftyVerif.Props.C05", "NiftyVerif.Model.TreeShareDriver", "Nif
 DRIVER = "Driver/C05.lean"
 OBLIGATIONS = ["NiftyVerif.C05." + t for t in (
     "subst_letFree", "inlineAll_letFree", "share_sound", "inlineAll_sound", "isSharingOf_sound", "isSharingOf_jac",
-    "mem_keys_subst", "keys_inlineAll", "isSharingOf_dom")]
+    "mem_keys_subst", "keys_inlineAll", "isSharingOf_dom", "share_inverse", "shareAll_letFree", "mem_keys_shareAll",
+    "share_step_accepted")]
 RULE = ("construction scripts of sum/product/chain trees over keys a,b,c with shared leaves and shared sub-trees (object "
         "identity preserved: an operator built once may be used several times); the REAL optimise_operator is run, original "
         "and optimised trees are serialised and the verified Lean checker validates the pair; value and Jacobian are "
@@ -94,6 +95,13 @@ def gen_script(rng, nsteps):
     tag = [0]
 
     def new_leaf(j):
+        used = [st[1] for st in steps if st[0] == "leaf"]
+        if used and rng.random() < 0.25:
+            # the SAME operator object once more (same tag = same object, see `build`), on this or on another input
+            t = rng.choice(used)
+            steps.append(["leaf", t, j])
+            lin.append(lin[j] and t % 5 == 4)
+            return len(steps) - 1
         t = tag[0]
         tag[0] += 1
         if rng.random() < 0.2:
@@ -141,16 +149,88 @@ def gen_script(rng, nsteps):
     return steps
 
 
+def gen_staggered(rng):
+    """three or more leaf chains over the same base that agree to DIFFERENT depths (P@Q@x, R@Q@x, S@x, Q@x itself, ...), combined
+    in a random order and tree shape; several such groups at once; chains of different lengths where one is a prefix of another"""
+    steps = []
+    nexttag = [0]
+
+    def leaf(j, linear=False):
+        used = [st[1] for st in steps if st[0] == "leaf" and (st[1] % 5 == 4) == linear]
+        if used and rng.random() < 0.2:
+            steps.append(["leaf", rng.choice(used), j])       # the same operator object again (possibly on another input)
+            return len(steps) - 1
+        t = nexttag[0]
+        while (t % 5 == 4) != linear:
+            t += 1
+        nexttag[0] = t + 1
+        steps.append(["leaf", t, j])
+        return len(steps) - 1
+
+    group_tops = []
+    for key in rng.sample(KEYS, rng.choice([1, 1, 2])):
+        steps.append(["var", key])
+        base = len(steps) - 1
+        depth = rng.choice([1, 2, 3, 4])
+        prefix = [base]
+        for _ in range(depth):
+            prefix.append(leaf(prefix[-1]))
+        tops = []
+        nchains = rng.choice([3, 3, 4, 5])
+        divs = [rng.randrange(0, depth + 1) for _ in range(nchains)]
+        if rng.random() < 0.7:
+            divs[rng.randrange(nchains)] = depth          # one chain is the full prefix (possibly with own leaves on top)
+        if rng.random() < 0.7:
+            divs[rng.randrange(nchains)] = rng.choice([0, 1]) if depth >= 1 else 0   # an early-diverging chain
+        for dv in divs:
+            j = prefix[dv]
+            own = rng.choice([0, 1, 1, 2]) if dv >= 1 else rng.choice([1, 2])
+            for q in range(own):
+                j = leaf(j, linear=(own == 2 and q == 0 and rng.random() < 0.4))
+            tops.append(j)
+        rng.shuffle(tops)
+        if rng.random() < 0.3:
+            tops.append(rng.choice(tops))      # the same chain object below two parents
+        group_tops.append(tops)
+    results = []
+    for tops in group_tops:
+        if rng.random() < 0.5:
+            cur = tops[0]
+            for t in tops[1:]:
+                steps.append([rng.choice(["add", "mul"]), cur, t] if rng.random() < 0.5 else [rng.choice(["add", "mul"]), t, cur])
+                cur = len(steps) - 1
+        else:
+            layer = list(tops)
+            while len(layer) > 1:
+                nxt = []
+                for i in range(0, len(layer) - 1, 2):
+                    steps.append([rng.choice(["add", "mul"]), layer[i], layer[i + 1]])
+                    nxt.append(len(steps) - 1)
+                if len(layer) % 2:
+                    nxt.append(layer[-1])
+                layer = nxt
+            cur = layer[0]
+        results.append(cur)
+    cur = results[0]
+    for r in results[1:]:
+        steps.append([rng.choice(["add", "mul"]), cur, r])
+        cur = len(steps) - 1
+    if steps[-1][0] not in ("add", "mul"):
+        steps.append(["mul", cur, cur])
+    return steps
+
+
 def build(steps):
     E = env()
     ift = E["ift"]
-    ops = []
+    ops, leafobj = [], {}
     for s in steps:
         if s[0] == "var":
             ops.append(ift.FieldAdapter(E["dom"], s[1]))
         elif s[0] == "leaf":
-            lf = E["LL"](s[1]) if s[1] % 5 == 4 else E["NL"](s[1])
-            ops.append(lf @ ops[s[2]])
+            if s[1] not in leafobj:      # one operator object per tag: a tag used twice is the same object used twice
+                leafobj[s[1]] = E["LL"](s[1]) if s[1] % 5 == 4 else E["NL"](s[1])
+            ops.append(leafobj[s[1]] @ ops[s[2]])
         elif s[0] == "add":
             ops.append(ops[s[1]] + ops[s[2]])
         elif s[0] == "mul":
@@ -175,6 +255,104 @@ def expand(steps):
     return ex[-1]
 
 
+
+# ------------------------------------------------------------------------------------------------------------
+# library models (every operator class that occurs there is an opaque tagged leaf for the serialiser)
+# ------------------------------------------------------------------------------------------------------------
+LIB_KINDS = ["cf1", "cf2", "matern", "simple", "harmonic", "energy"]
+
+
+def build_lib(cfg):
+    """a model built from library components only; `cfg` = dict(kind=, form=, n=, seed=)"""
+    E = env()
+    ift = E["ift"]
+    kind, form, n = cfg["kind"], cfg.get("form", 0), cfg.get("n", 8)
+    rs = np.random.default_rng(cfg.get("seed", 0))
+    if kind in ("cf1", "cf2", "matern"):
+        cfm = ift.CorrelatedFieldMaker("p")
+        if kind == "matern":
+            cfm.add_fluctuations_matern(ift.RGSpace(n), (1., .2), (.5, .2), (-3., .5))
+        else:
+            cfm.add_fluctuations(ift.RGSpace(n), (1., .1), (1., .1), (1., .1), (-3., .5))
+        if kind == "cf2":
+            cfm.add_fluctuations(ift.RGSpace(4), (1., .1), (1., .1), None, (-2., .5), prefix="t")
+        cfm.set_amplitude_total_offset(0.3, (1., .1))
+        f = cfm.finalize(0)
+    elif kind == "simple":
+        f = ift.SimpleCorrelatedField(ift.RGSpace(n), 0.2, (1., .1), (1., .1), (1., .1), (1., .1), (-3., .5))
+    elif kind == "harmonic":
+        sp = ift.RGSpace(n)
+        hsp = sp.get_default_codomain()
+        amp = ift.makeOp(ift.makeField(hsp, rs.uniform(.5, 1.5, n)))
+        f = ift.HartleyOperator(hsp, sp) @ amp @ ift.FieldAdapter(hsp, "xi")
+        f = f * ift.FieldAdapter(sp, "b").ptw("exp") + f
+    elif kind == "energy":
+        sp = ift.RGSpace(n)
+        g = ift.FieldAdapter(sp, "a") * ift.FieldAdapter(sp, "b").ptw("tanh")
+        lam = g.ptw("exp")
+        d = ift.makeField(sp, rs.poisson(3., n).astype(np.int64))
+        e1 = ift.PoissonianEnergy(d) @ lam
+        e2 = ift.GaussianEnergy(ift.makeField(sp, rs.normal(size=n))) @ (g + lam)
+        if form % 2 == 0:
+            return e1 + e2
+        return e1 + e2 + ift.GaussianEnergy(None, domain=sp) @ g
+    else:
+        raise ValueError("unknown library model " + str(kind))
+    form = form % 5
+    if form == 0:
+        return f.ptw("exp") * f.ptw("sigmoid") + f
+    if form == 1:
+        return f * f + f.ptw("tanh")
+    if form == 2:
+        w = ift.makeOp(ift.makeField(f.target, rs.uniform(.5, 1.5, f.target.shape)))
+        return (w @ f) + f.ptw("exp") * (w @ f)
+    if form == 3:
+        return f.ptw("exp") + f.ptw("exp")
+    return (f + f.ptw("exp")) * (f + f.ptw("exp")).ptw("tanh")
+
+
+def has_node(op):
+    """does the optimiser see at least one _OpSum/_OpProd (the root, or an element of the root chain)?"""
+    E = env()
+    nd = (E["OpSum"], E["OpProd"])
+    return isinstance(op, nd) or (isinstance(op, E["OpChain"]) and any(isinstance(o, nd) for o in op._ops))
+
+
+def is_structural(o):
+    E = env()
+    return isinstance(o, (E["OpSum"], E["OpProd"], E["OpChain"], E["ChainOperator"]))
+
+
+def tag_leaves(op):
+    """give every non-structural operator object of an (unoptimised) tree a `_vtag` (kept by deepcopy); a FieldAdapter at the
+    end of a chain (or standing alone) is a variable and stays untagged; returns {tag: class name}"""
+    E = env()
+    ift = E["ift"]
+    tags, seen = {}, set()
+
+    def tag(o):
+        if not hasattr(o, "_vtag"):
+            o._vtag = 1000 + 5 * len(tags)
+            tags[o._vtag] = type(o).__name__
+
+    def walk(o, is_input):
+        if id(o) in seen and is_structural(o):
+            return
+        seen.add(id(o))
+        if isinstance(o, (E["OpSum"], E["OpProd"])):
+            walk(o._op1, True)
+            walk(o._op2, True)
+        elif isinstance(o, (E["OpChain"], E["ChainOperator"])):
+            for i, x in enumerate(o._ops):
+                walk(x, is_input and i == len(o._ops) - 1)
+        elif type(o) is ift.FieldAdapter and is_input:
+            pass
+        else:
+            tag(o)
+    walk(op, True)
+    return tags
+
+
 class Unserialisable(Exception):
     pass
 
@@ -182,12 +360,13 @@ class Unserialisable(Exception):
 class Ser:
     """operator object -> expression JSON; inserted FieldAdapter names are numbered 100, 101, .. by first occurrence"""
 
-    def __init__(self):
-        self.names = {k: i for i, k in enumerate(KEYS)}
+    def __init__(self, keys=None):
+        self.names = {k: i for i, k in enumerate(KEYS if keys is None else keys)}
+        self.nkeys = len(self.names)
 
     def key(self, name):
         if name not in self.names:
-            self.names[name] = 100 + len(self.names) - len(KEYS)
+            self.names[name] = 100 + len(self.names) - self.nkeys
         return self.names[name]
 
     def fa_name(self, o):
@@ -205,26 +384,54 @@ class Ser:
             return {"*": [self.ser(o._op1), self.ser(o._op2)]}
         if isinstance(o, (E["OpChain"], E["ChainOperator"])):
             return self.chain(list(o._ops))
+        if hasattr(o, "_vtag"):
+            return {"l": int(o._vtag), "a": self.inputs(o)}
         if type(o) is ift.FieldAdapter:
             return {"v": self.key(self.fa_name(o))}
         raise Unserialisable("node " + type(o).__name__)
 
+    def inputs(self, o):
+        """a tagged leaf that reads the environment directly: the tuple of the keys of its domain"""
+        E = env()
+        ift = E["ift"]
+        if not isinstance(o.domain, ift.MultiDomain):
+            raise Unserialisable("leaf " + type(o).__name__ + " at the end of a chain does not read keys")
+        ks = sorted(o.domain.keys())
+        if not ks:
+            raise Unserialisable("leaf without input keys")
+        for k in ks:
+            if k not in self.names:
+                raise Unserialisable("leaf reads the unknown key " + str(k))
+        e = {"v": self.names[ks[-1]]}
+        for k in reversed(ks[:-1]):
+            e = {"pair": [{"v": self.names[k]}, e]}
+        return e
+
     def chain(self, ops):
         E = env()
         ift = E["ift"]
+        flat = []
+        for o in ops:    # nested chains mean the same as the flattened chain
+            if isinstance(o, (E["OpChain"], E["ChainOperator"])) and len(ops) > 1:
+                flat.extend(o._ops)
+            else:
+                flat.append(o)
+        if len(flat) != len(ops):
+            return self.chain(flat)
         if len(ops) == 1:
             return self.ser(ops[0])
         last = ops[-1]
-        if isinstance(last.target, ift.MultiDomain):
+        if isinstance(last.target, ift.MultiDomain) and not hasattr(last, "_vtag"):
             k, bound = self.envbuilder(last)
             return {"let": k, "b": bound, "in": self.chain(ops[:-1])}
         # an environment builder without pass-through keys is flattened into the chain:
         #   [core.., FieldAdapter(name).adjoint, sub..]  =  let name = sub in core
         for i, o in enumerate(ops):
-            if i > 0 and isinstance(o, E["OperatorAdapter"]) and o._trafo == 1 and type(o._op) is ift.FieldAdapter:
+            if (i > 0 and not hasattr(o, "_vtag") and isinstance(o, E["OperatorAdapter"]) and o._trafo == 1
+                    and type(o._op) is ift.FieldAdapter):
                 return {"let": self.key(self.fa_name(o._op)), "b": self.chain(ops[i + 1:]), "in": self.chain(ops[:i])}
         first = ops[0]
-        if hasattr(first, "_vtag") and isinstance(first, (E["NL"], E["LL"])):
+        if hasattr(first, "_vtag"):
             return {"l": int(first._vtag), "a": self.chain(ops[1:])}
         if isinstance(first, (E["OpSum"], E["OpProd"], E["OpChain"], E["ChainOperator"])) and len(ops) > 1:
             # a node applied to an environment-valued tail is handled above; anything else is unexpected
@@ -293,9 +500,12 @@ def evaluate(op, vals, dirs, cot):
 def run_real(case):
     E = env()
     ift = E["ift"]
-    steps = case["steps"]
     try:
-        op = build(steps)
+        if "lib" in case:
+            op = build_lib(case["lib"])
+            tag_leaves(op)
+        else:
+            op = build(case["steps"])
     except Exception as e:  # noqa: BLE001
         return dict(error="build:" + type(e).__name__)
     if not isinstance(op.domain, ift.MultiDomain):
@@ -311,6 +521,21 @@ def run_real(case):
         site = (fr[-1].filename.split("/")[-1] + ":" + fr[-1].name) if fr else ""
         return dict(error="optimise:" + type(e).__name__, site=site, op=op)
     return dict(op=op, opt=opt)
+
+
+def evaluate_lib(op, seed):
+    """value, J·dx, Jᵀ·y of a library model at a seeded random position"""
+    E = env()
+    ift = E["ift"]
+    with ift.random.Context(seed):
+        x = ift.from_random(op.domain) * 0.3
+        dx = ift.from_random(op.domain)
+        y = ift.from_random(op.target)
+    val = op(x).asnumpy()
+    lin = op(ift.Linearization.make_var(x))
+    jv = lin.jac(dx).asnumpy()
+    jt = lin.jac.adjoint_times(y)
+    return val, jv, {k: jt[k].asnumpy() for k in op.domain.keys()}
 
 
 def inputs_for(case, n):
@@ -332,12 +557,15 @@ def allclose(a, b):
 def oracle(case):
     """the property on the real code only: same domain and target, equal value and Jacobian at several inputs"""
     E = env()
-    if case["steps"][-1][0] not in ("add", "mul"):
-        return None     # not a sum/product tree (the optimiser works on trees with at least one node)
     r = run_real(case)
     if "error" in r:
         if r["error"].startswith("build:"):
             return None
+        if not has_node(r["op"]):
+            # no _OpSum/_OpProd the optimiser could see (a bare chain, a linear operator, a sum of likelihood energies):
+            # there is nothing to share and the operator should come back unchanged
+            return (f"optimise_operator fails on an operator without sum/product nodes: {r['error']} at {r.get('site')}",
+                    dict(kind="crash", nodeless=True))
         return (f"optimise_operator fails on a well-formed tree: {r['error']} at {r.get('site')}",
                 dict(kind="crash", error=r["error"], site=r.get("site")))
     op, opt = r["op"], r["opt"]
@@ -345,8 +573,12 @@ def oracle(case):
         return ("optimised operator has a different domain or target", dict(kind="domain"))
     for vals, dirs, cot in inputs_for(case, 4):
         try:
-            v0, j0, t0 = evaluate(op, vals, dirs, cot)
-            v1, j1, t1 = evaluate(opt, vals, dirs, cot)
+            if "lib" in case:
+                v0, j0, t0 = evaluate_lib(op, vals["a"][0] + 7 * cot[0] + 100)
+                v1, j1, t1 = evaluate_lib(opt, vals["a"][0] + 7 * cot[0] + 100)
+            else:
+                v0, j0, t0 = evaluate(op, vals, dirs, cot)
+                v1, j1, t1 = evaluate(opt, vals, dirs, cot)
         except Exception as e:  # noqa: BLE001
             return (f"optimised operator cannot be evaluated: {type(e).__name__}", dict(kind="crash-eval", error=type(e).__name__))
         if not allclose(v0, v1):
@@ -359,6 +591,11 @@ def oracle(case):
 
 
 def shrink(case):
+    if "lib" in case:
+        for n in (4, 6):
+            if case["lib"].get("n", 8) > n:
+                yield dict(case, lib=dict(case["lib"], n=n))
+        return
     steps = case["steps"]
     # drop the last step / any step that nothing refers to
     for cut in range(len(steps) - 1, 1, -1):
@@ -394,25 +631,39 @@ def run(ctx):
     cases = load_corpus()
     n = ctx.n(250, 4000)
     for i in range(n):
-        steps = gen_script(ctx.rng, ctx.rng.choice([6, 8, 10, 12] if ctx.quick else [6, 8, 10, 12, 14, 16]))
+        if i % 3 == 2:
+            steps = gen_staggered(ctx.rng)
+        else:
+            steps = gen_script(ctx.rng, ctx.rng.choice([6, 8, 10, 12] if ctx.quick else [6, 8, 10, 12, 14, 16]))
         cases.append(dict(steps=steps, rngseed=ctx.rng.randrange(1000), inseed=ctx.rng.randrange(10 ** 6)))
+    for i in range(ctx.n(6, 60)):
+        cases.append(dict(lib=dict(kind=LIB_KINDS[i % len(LIB_KINDS)], form=ctx.rng.randrange(5), n=ctx.rng.choice([4, 6, 8]),
+                                   seed=ctx.rng.randrange(1000)), rngseed=ctx.rng.randrange(1000), inseed=ctx.rng.randrange(10 ** 6)))
     reqs, metas = [], []
     for c in cases:
         r = run_real(c)
         res = oracle(c)
         if res:
             ctx.counterexample(c, *res)
+            ctx.stat("oracle:" + str(res[1].get("kind")))
+            if "error" not in r:
+                continue       # already reported; a broken optimised operator (e.g. a leaked key) cannot be evaluated further
         if "error" in r:
             ctx.stat("impl:" + r["error"])
             ctx.case(c, nontrivial=False)
             continue
-        ser = Ser()
+        ser = Ser(sorted(r["op"].domain.keys()) if "lib" in c else None)
         try:
             e_orig = ser.ser(r["op"])
             e_opt = ser.ser(r["opt"])
         except Unserialisable as e:
             ctx.broke("correspondence", "serialiser met an unknown node", str(e))
             ctx.stat("unserialisable")
+            continue
+        if "lib" in c:
+            ctx.stat("library-model:" + c["lib"]["kind"])
+            reqs.append(dict(orig=e_orig, opt=e_opt, env=[[i, "1"] for i in range(ser.nkeys)]))
+            metas.append((c, r, ser, None, None))
             continue
         expected = expand(c["steps"])
         ctx.compare(dict(c, what="serialised original"), e_orig, expected,
@@ -425,6 +676,18 @@ def run(ctx):
     for (c, r, vals, dirs, cot), m in zip(metas, outs):
         E = env()
         ift = E["ift"]
+        if "lib" in c:
+            # library leaves have no counterpart in the model: only the verified checker's verdict and the key sets count;
+            # the values and Jacobians of the real operators are compared by the oracle above
+            ser = vals
+            impl = dict(sharing=True, keys_opt=sorted(ser.names[k] for k in r["opt"].domain.keys()),
+                        keys_orig=sorted(ser.names[k] for k in r["op"].domain.keys()))
+            model = dict(sharing=m.get("sharing"), keys_opt=m.get("keys_opt"), keys_orig=m.get("keys_orig"))
+            ctx.stat("lib-lets=%d" % min(m.get("lets", 0), 6))
+            ctx.compare(c, impl, model, note="library model: verified checker verdict and key sets of the serialised trees vs the "
+                        "real optimiser output", nontrivial=m.get("lets", 0) > 0)
+            ctx.traces_validated += 1
+            continue
         v0, _, _ = evaluate(r["op"], vals, dirs, cot)
         v1, _, _ = evaluate(r["opt"], vals, dirs, cot)
         keys_real = sorted(KEYS.index(k) for k in r["opt"].domain.keys())
@@ -439,6 +702,9 @@ def run(ctx):
                      val_orig=cmpv(m["val_orig"], v0[0]) if "val_orig" in m else "missing",
                      val_opt=cmpv(m["val_opt"], v1[0]) if "val_opt" in m else "missing")
         ctx.stat("lets=%d" % min(m.get("lets", 0), 6))
+        if m.get("lets", 0) > 0:
+            # did every inserted key replace ALL occurrences of its definition (Ex.maximal)? a statistic, not a requirement
+            ctx.stat("sharing-maximal" if m.get("maximal") else "sharing-partial")
         ctx.stat("size_orig<=%d" % (10 * (1 + m.get("size_orig", 0) // 10)))
         ctx.compare(c, impl, model, note="verified checker verdict / key sets / exact values of the serialised trees vs the real "
                     "optimiser output", nontrivial=m.get("lets", 0) > 0)
